@@ -256,12 +256,22 @@ def run(ck):
 
     files = {}
     shard_cases = {}
-    SH = 400
-    for i in range(0, len(coq_cases), SH):
-        name = "c14_%03d" % (i // SH)
-        chunk = coq_cases[i:i + SH]
-        files[name] = cases_file([(c[1], c[3], c[5]) for c in chunk])
-        shard_cases[name] = chunk
+    # shards bounded both in the number of cases and in the total length of their scripts (a multi-MB literal makes coqc
+    # use tens of GB): at most 400 cases and about 4000 script entries per file
+    chunk, weight = [], 0
+    def flush():
+        if chunk:
+            name = "c14_%03d" % len(files)
+            files[name] = cases_file([(c[1], c[3], c[5]) for c in chunk])
+            shard_cases[name] = list(chunk)
+    for c in coq_cases:
+        wgt = len(c[3]) + 20
+        if chunk and (len(chunk) >= 400 or weight + wgt > 4000):
+            flush()
+            chunk, weight = [], 0
+        chunk.append(c)
+        weight += wgt
+    flush()
     ck.log("model: %d cases in %d vm_compute shards" % (len(coq_cases), len(files)))
     ck.cmds.append("coqc -Q coq PS coq/Cases/<run>/c14_NNN.v   (Lemma all_agree by vm_compute)")
     results = ck.coq_cases_parallel(files, timeout=900)
